@@ -43,8 +43,10 @@ fn digest_profiles() -> Vec<Profile> {
         Profile { callback_panics: true, ..Profile::panics() },
         Profile::statics(),
         Profile { overflow_sizes: true, w_reserve: 16, w_shrink: 8, ..Profile::sharing() },
+        Profile { w_extend: 14, w_convert: 8, ..Profile::faults() },
     ]
 }
+const FAULT_PROFILE: usize = 5;
 
 /// The i-th history of the digest stream (deterministic for a given seed).
 pub fn digest_histories(seed: u64, count: usize) -> Vec<History> {
@@ -64,7 +66,14 @@ pub fn digest_histories(seed: u64, count: usize) -> Vec<History> {
                 break;
             }
             let tree = strat.new_tree(&mut runner).expect("generation");
-            out.push(tree.current());
+            let mut h = tree.current();
+            if pi == FAULT_PROFILE {
+                // behaviour when the allocator refuses a request is part of "the same behaviour in every
+                // configuration": one of the first requests of the history fails (configurations built without
+                // the hooks cannot inject it and skip these histories)
+                h.plan = Plan { faults: vec![(out.len() % 7) as u64] };
+            }
+            out.push(h);
         }
     }
     out
@@ -74,7 +83,10 @@ pub fn digest_histories(seed: u64, count: usize) -> Vec<History> {
 /// the hooks on, a digest of the allocator event log. Does not use any oracle.
 pub fn digest_one(h: &History) -> (u64, u64) {
     silence_panics();
-    shadow::with(|hp| hp.begin_case());
+    shadow::with(|hp| {
+        hp.begin_case();
+        hp.fault_plan = h.plan.faults.clone();
+    });
     let mut w = World::new();
     let mut vd: u64 = 0;
     let mut ed: u64 = 0;
@@ -319,6 +331,9 @@ pub fn c20(tier: Tier, seed: u64) -> Verdict {
                 continue;
             }
             for (i, (v, e)) in d.iter().enumerate() {
+                if !c.hooks && !hs[i].plan.faults.is_empty() {
+                    continue;
+                }
                 let (hv, he) = (format!("{:016x}", here[i].0), format!("{:016x}", here[i].1));
                 let value_differs = *v != hv;
                 let events_differ = c.hooks && *e != he;
